@@ -493,3 +493,78 @@ func verifK_CloseChannel() {
 	verifAssert(len(c.streams) == 0, "C14.k-table-empty-after-close")
 	verifAssert(!verifMutexHeld(&c.mu) && !verifMutexHeld(&c.streamCreation), "C15.k-channel-locks-released")
 }
+
+// K-FLOW (C01 C05 C06 C15): the real flow-controlled sender and the real
+// receiver composed through a transport: sender || data transport (-> accept)
+// || consuming application (dequeue) || credit transport (-> updateWindow), with
+// a small window so that a message needs several window refills. A conforming
+// sender is never rejected, nothing is lost or reordered, nobody is left
+// parked, and once everything has been read the whole window is available again.
+func verifK_Flow() {
+	W := uint32(verifParam("window"))
+	msg := verifBytes("msg", verifParam("maxlen"))
+	wire := make(chan vframe, 64)
+	credits := make(chan uint32, 64)
+	ctx, cancel := context.WithCancel(context.Background())
+	defer cancel()
+	var inFlight, queuedOrRead uint64
+	rcv := newReceiver[vframe](func(f vframe) uint { return uint(len(f.data)) }, func(c uint32) { credits <- c }, W)
+	snd := newSender(ctx, W, func(d []byte, total uint32, first bool) error {
+		inFlight += uint64(len(d))
+		// C06: never more than one window of un-credited data out
+		verifAssert(inFlight <= uint64(W), "C06.k-flow-uncredited-bytes-within-window")
+		wire <- vframe{d, total, first}
+		return nil
+	})
+	ds := snd.(*defaultSender)
+	fr := rcv.(*defaultReceiver[vframe])
+	var sendErr error
+	var delivered []byte
+	frames := 0
+	sdone, cdone := false, false
+	verifGo("sender", func() {
+		sendErr = snd.send(msg)
+		sdone = true
+		close(wire)
+	})
+	verifGo("data-transport", func() {
+		for f := range wire {
+			err := rcv.accept(f)
+			verifAssert(err == nil, "C05+C06.k-flow-conforming-sender-never-rejected")
+			queuedOrRead += uint64(len(f.data))
+		}
+		rcv.close() // the sender is done: half-close
+	})
+	verifGo("application", func() {
+		for {
+			f, ok := rcv.dequeue()
+			if !ok {
+				break
+			}
+			verifAssert(f.first == (frames == 0) && f.size == uint32(len(msg)), "C01+C13.k-flow-frame-labels")
+			delivered = append(delivered, f.data...)
+			frames++
+		}
+		cdone = true
+		close(credits)
+	})
+	verifGo("credit-transport", func() {
+		for c := range credits {
+			inFlight -= uint64(c)
+			snd.updateWindow(c)
+		}
+	})
+	verifDrain()
+	verifAssert(sdone && cdone, "C05.k-flow-nobody-left-parked")
+	if !(sdone && cdone) {
+		return
+	}
+	verifAssert(sendErr == nil, "C05.k-flow-send-completes")
+	verifAssertBytesEq(delivered, msg, "C01.k-flow-message-delivered-intact")
+	if frames > 2 {
+		verifCover("k-flow-refilled")
+	}
+	verifAssert(ds.currentWindow.Load() == W, "C05.k-flow-whole-sender-window-available-again")
+	verifAssert(fr.currentWindow == W, "C05+C06.k-flow-whole-receiver-window-available-again")
+	verifAssert(!verifMutexHeld(&ds.mu) && !verifMutexHeld(&fr.mu), "C15.k-flow-locks-released")
+}
